@@ -23,6 +23,51 @@ VALID = {'keyword_case': [None, 'upper', 'lower', 'capitalize'], 'identifier_cas
 PROBE = "select a, 'long string literal here' as s, f(x) from t where a = 1 and b in (1, 2) order by a -- c\n; update t set a = 1"
 
 
+def chain_of_options(opts):
+    """the statement-filter chain `format(**opts)` builds, in the notation of the driver's `treefilter`/`filtersafe` commands"""
+    from sqlparse import formatter, filters
+    from sqlparse.engine import FilterStack
+    stack = formatter.build_filter_stack(FilterStack(), formatter.validate_options(dict(opts)))
+    names = []
+    for f in stack.stmtprocess:
+        n = type(f).__name__
+        if n == 'StripCommentsFilter':
+            names.append('stripcomments')
+        elif n == 'StripWhitespaceFilter':
+            names.append('stripws')
+        elif n == 'SpacesAroundOperatorsFilter':
+            names.append('spaces')
+        elif n == 'ReindentFilter':
+            names.append(streams.reindent_spec(char=f.char, width=f.width, wrap_after=f.wrap_after, comma_first=f.comma_first,
+                                               indent_columns=f.indent_columns, compact=f.compact, indent_after_first=f.indent_after_first))
+        elif n == 'AlignedIndentFilter':
+            names.append('aligned:' + '-'.join('%x' % ord(c) for c in f.char))
+        else:
+            return None          # a filter the staged model command does not know (right_margin)
+    return ','.join(names)
+
+
+def lean_domain(ctx, text, opts):
+    """for an exception that escaped from format(): the Lean domain predicate (SqlModel/Filters/Safe.lean) of the stage that raises in the
+    model, evaluated on the tree that stage receives: (stage, predicate, model outcome) or None when the staged command does not apply"""
+    try:
+        chain = chain_of_options(opts)
+        if not chain or not ctx.model.available:
+            return None
+        before = [streams.sexp(st) for st in sqlparse.parse(text)]
+        mo = ctx.model.ask(['filtersafe chain=%s %d %s' % (chain, 100000, ' '.join(before))])[0]
+        if not mo.startswith('ok'):
+            return None
+        for g in mo[2:].split('|'):
+            for x in g.split():
+                a, b, c = x.split(':')
+                if c != 'ok':
+                    return [a, b, c]
+        return ['-', '-', 'ok']
+    except Exception as e:
+        return None
+
+
 def try_format(ctx, text, opts, what):
     ctx.evaluations += 1
     try:
@@ -35,7 +80,9 @@ def try_format(ctx, text, opts, what):
         import traceback
         fr = traceback.extract_tb(e.__traceback__)[-3:]
         site = ['%s:%s' % (os.path.basename(t.filename), t.name) for t in fr] + [type(e).__name__]
-        ctx.fail('%s: %s escaped from format()' % (what, type(e).__name__), text, observed=repr(e)[:200], required='str or SQLParseError', options=repr(opts), site=site)
+        dom = lean_domain(ctx, text, opts)
+        ctx.fail('%s: %s escaped from format()' % (what, type(e).__name__), text, observed=repr(e)[:200], required='str or SQLParseError', options=repr(opts), site=site,
+                 lean_domain=dom)
 
 
 def random_valid_opts(rng):
@@ -145,6 +192,11 @@ def keyof(f):
 def classify(f, kf):
     for k in kf:
         if k.get('site') and f.get('site') == k['site']:
+            # anchored in the Lean domain predicate: the finding is "the tree is outside FilterSafe.<stage>"; an exception on a tree
+            # INSIDE the domain (predicate 1) contradicts the totality theorem's tie and is never a known finding
+            dom = f.get('lean_domain')
+            if dom and dom[1] == '1':
+                return None
             return k['id']
         for pat in k.get('match_what', []):
             if pat in f['what']:
